@@ -17,6 +17,7 @@ mod c09;
 mod c10;
 mod c18;
 mod c20;
+mod fuzz;
 mod ops;
 mod rec;
 mod util;
